@@ -113,7 +113,7 @@ def tp_names(s, tag, N, rng):
     return q
 
 
-def compare_all(sc, g, a, b, what):
+def compare_all(sc, g, a, b, what, ints_in_both=False):
     """every out / int with prefix a equals the one with prefix b"""
     n = 0
     for k in sorted(g.outs):
@@ -126,6 +126,8 @@ def compare_all(sc, g, a, b, what):
             n += 1
     for k in sorted(g.ints):
         if k.startswith(a):
+            if ints_in_both and (b + k[len(a):]) not in g.ints:
+                continue
             sc.int_eq('%s: %s == fresh object' % (what, k[len(a):]), k, g.ints.get(b + k[len(a):]))
     return n
 
